@@ -40,7 +40,8 @@ def tables(mc, order=None):
                     except Exception as e:  # noqa
                         i = None
                     isint = isinstance(i, int) and not isinstance(i, bool)
-                    ids.append({'cls': c.__name__, 'id': i if isint and abs(i) < 2 ** 31 else -1, 'isint': isint})
+                    ids.append({'cls': c.__name__, 'id': i if isint and abs(i) < 2 ** 31 else -1, 'isint': isint,
+                                'foreign': not str(getattr(c, '__module__', '')).startswith('minecraft.')})
                     classes[(v, st, dname, c.__name__)] = c
                 out.append({'v': v, 'sup': sup, 'st': st, 'dir': dname, 'ids': ids})
     return out, classes
@@ -87,6 +88,20 @@ def run(chk):
             raise core.MachineryError('IdTables failed: %s' % (r.errors[:2],))
     # ---- the tables are asked for again in other version orders (descending, zig-zag, shuffled): whatever was built
     #      before, every table must still be total and injective (state shared between calls must not leak classes)
+    # an application may subclass any packet class (its own decoders, for its own reactor): merely defining such classes
+    # must not change the library's tables
+    lib_classes = set()
+    for c in set(classes.values()):
+        for b in c.__mro__:                     # the registered classes and every library base class they derive from
+            if str(getattr(b, '__module__', '')).startswith('minecraft.'):
+                lib_classes.add(b)
+    user_classes = []
+    for c in sorted(lib_classes, key=lambda c: (c.__module__, c.__name__)):
+        try:
+            user_classes.append(type(c)('User' + c.__name__, (c,), {'__module__': 'application'}))
+        except Exception:       # noqa  (a class that cannot be subclassed this way is not probed)
+            pass
+    chk.extra['user_subclasses_defined'] = len(user_classes)
     supv = list(mc.SUPPORTED_PROTOCOL_VERSIONS)
     zig = [supv[(-1 - i // 2) if i % 2 == 0 else i // 2] for i in range(len(supv))]
     passes = [('descending', list(reversed(supv))), ('zigzag', zig)]
@@ -104,7 +119,10 @@ def run(chk):
             if t['ids'] != ref['ids']:
                 chk.drift.append({'table-depends-on-call-order': [pname, t['v'], t['st'], t['dir']]})
             for x in t['ids']:
-                if not x['isint'] or x['id'] < 0:
+                if x.get('foreign'):
+                    chk.violation('idtable:foreign-class:%s/%s' % (t['st'], t['dir']), 'the %s/%s table at protocol %d registers %s, a class defined '
+                                  'by the application, not by the library' % (t['st'], t['dir'], t['v'], x['cls']), {'entry': t, 'pass': pname})
+                elif not x['isint'] or x['id'] < 0:
                     chk.violation('idtable:not-total:%s' % x['cls'], 'class %s has no non-negative integer id at protocol %d (%s/%s) '
                                   'when the tables are built in %s order' % (x['cls'], t['v'], t['st'], t['dir'], pname), {'entry': t, 'pass': pname})
                 elif x['id'] in seen:
